@@ -448,6 +448,7 @@ impl StringGenerator {
 
         for (y, line) in cells.iter().enumerate() {
             let mut x = 0;
+            let mut ends_with_cuf = false;
 
             if !self.output.is_empty() {
                 self.line_offsets.push(self.output.len());
@@ -545,9 +546,11 @@ impl StringGenerator {
                             result.extend_from_slice(output);
                             self.push_result(&mut result);
                             x += rle + 1;
+                            ends_with_cuf = true;
                             continue;
                         }
                     }
+                    ends_with_cuf = false;
                     if self.options.use_repeat_sequences {
                         let fmt = &format!("\x1B[{rle}b");
                         let output = fmt.as_bytes();
@@ -573,8 +576,8 @@ impl StringGenerator {
                     result.extend_from_slice(b"\x1b[0m");
                     result.push(10);
                     self.last_line_break = result.len();
-                } else if x < layer.get_width() as usize && y + 1 < layer.get_height() as usize {
-                    if self.options.compress && x + 1 >= layer.get_width() as usize {
+                } else if (x < layer.get_width() as usize || ends_with_cuf) && y + 1 < layer.get_height() as usize {
+                    if self.options.compress && x + 1 >= layer.get_width() as usize && !ends_with_cuf {
                         // if it's shorter to line break with 1 space, do that
                         result.push(b' ');
                     } else {
